@@ -21,7 +21,7 @@ var c12IntLo = new(big.Int).Neg(new(big.Int).Lsh(big.NewInt(1), 255))
 var c12IntHi = new(big.Int).Lsh(big.NewInt(1), 255)
 
 // c12DoWalk counts references by actually walking every evaluation stack and slot of every context.
-func c12DoWalk(v *vm.VM, extra ...*vm.Stack) c12Walk {
+func c12DoWalk(v *vm.VM, extra ...[]stackitem.Item) c12Walk {
 	var w c12Walk
 	seenStack := map[*vm.Stack]bool{}
 	seenSlot := map[*stackitem.Item]bool{}
@@ -106,8 +106,11 @@ func c12DoWalk(v *vm.VM, extra ...*vm.Stack) c12Walk {
 		}
 	}
 	doStack(v.Estack())
-	for _, st := range extra { // stacks no context uses any more but whose items the counter still holds (finding F58)
-		doStack(st)
+	for _, its := range extra { // what was on stacks no context uses any more: the unrepaired counter still holds it (finding F58)
+		w.total += len(its)
+		for _, it := range its {
+			visit(it)
+		}
 	}
 	for _, c := range v.Istack() {
 		doStack(c.Estack())
